@@ -35,7 +35,13 @@ package executor
 //@     set ws = ret0
 //@     set we = ret1
 //@     set gotW = true
+//@   ghost cmp bool = false
+//@   ghost teq bool = false
+//@   call bytes.Equal
+//@     set cmp = true
+//@     set teq = ret0
 //@   ensures result && gotW ==> ws <= chunk_time(final(nextChunk), 0) && chunk_time(final(nextChunk), 0) < we
+//@   ensures [bucket_continues_iff_in_window] gotW ==> (result == ((!cmp || teq) && ws <= chunk_time(final(nextChunk), 0) && chunk_time(final(nextChunk), 0) < we))
 
 // Fill fast path: the number of buckets of the query range is computed from the START of the first window
 // and the END of the last window.
